@@ -49,36 +49,8 @@ def classify(op, impl):
 def build_value_harness(ctx):
     """The shared server harness binary; if ANOTHER mode's file does not compile at the moment, fall back to an
     overlay holding only the common scaffolding and this mode's file (the value mode needs nothing else)."""
-    nb = len(ctx.broken)
-    exe = ctx.build_harness("server")
-    if exe:
-        return exe
-    detail = ctx.broken[-1]["detail"] if len(ctx.broken) > nb else ""
-    if "zz_verif_value_test.go" in detail or "zz_verif_common_test.go" in detail:
-        return None
-    del ctx.broken[nb:]
-    vlib.log("shared server harness does not build (other mode's file); building the value mode alone")
-    hdir = os.path.join(vlib.VERIF, "go/harness")
-    gen = os.path.join(vlib.BUILD, "harness-server-value")
-    os.makedirs(gen, exist_ok=True)
-    common = open(os.path.join(hdir, "common/zz_verif_common_test.go.in")).read().replace("package PKG", "package server")
-    cpath = os.path.join(gen, "zz_verif_common_test.go")
-    open(cpath, "w").write(common)
-    overlay = {os.path.join(vlib.REPO, "server", "zz_verif_common_test.go"): cpath,
-               os.path.join(vlib.REPO, "server", "zz_verif_value_test.go"): os.path.join(hdir, "server", "zz_verif_value_test.go"),
-               # the valueexec mode drives a real LockDB through the engine harness' vNewSeq
-               os.path.join(vlib.REPO, "server", "zz_verif_valueexec_test.go"): os.path.join(hdir, "server", "zz_verif_valueexec_test.go"),
-               os.path.join(vlib.REPO, "server", "zz_verif_engine_test.go"): os.path.join(hdir, "server", "zz_verif_engine_test.go")}
-    ov = os.path.join(gen, "overlay.json")
-    json.dump({"Replace": overlay}, open(ov, "w"))
-    exe = os.path.join(vlib.BUILD, "server-value.test")
-    rc, out, dt = vlib.sh(["go", "test", "-c", "-tags", "verif", "-vet=off", "-overlay", ov, "-o", exe, "./server"],
-                          cwd=vlib.REPO, env=vlib.GOENV, timeout=900)
-    vlib.log(f"go test -c ./server (value only) rc={rc} {dt:.1f}s")
-    if rc != 0:
-        ctx.broken.append({"kind": "tie", "name": "harness build (server, value mode)", "detail": out[-3000:]})
-        return None
-    return exe
+    return ctx.build_harness("server", only=["zz_verif_value_test.go", "zz_verif_valueexec_test.go", "zz_verif_engine_test.go",
+                                              "zz_verif_engine_monitor_test.go"])
 
 
 def classify_exec(op, impl):
